@@ -49,3 +49,4 @@ open Pandora.C14 Pandora.Interp
 #print axioms Pandora.C14Kernels.forLoop_scanLoop
 #print axioms Pandora.C14Kernels.mcDirs_half
 #print axioms Pandora.C14Kernels.mismatchMcCnn_generated_eq
+#print axioms Pandora.C14Kernels.nodataSgm_generated_eq
